@@ -100,3 +100,4 @@ package gateway
 //@   ensures sorted: forall a int, b int :: 0 <= a && a < b && b < len(tcpRoutesSource) ==> !objLess(tcpRoutesSource[b].obj, tcpRoutesSource[a].obj)
 //@   ensures keeps:  forall a int :: 0 <= a && a < len(tcpRoutesSource) ==> tcpRoutesSource[a] != nil
 //@ end
+
